@@ -994,7 +994,9 @@ fn family_umv(tier: Tier, sink: &mut Sink) {
         out.push(false);
         out
     };
-    for (w, h) in [(64u16, 16u16), (160, 16), (32, 32), (16, 16)] {
+    // (small pictures, then one picture in every size class of Tables D.1 / D.2 and at the largest
+    // width and height the custom picture format can express)
+    for (w, h) in [(64u16, 16u16), (160, 16), (32, 32), (16, 16), (356, 16), (708, 16), (1412, 16), (1764, 16), (2048, 16), (16, 292), (16, 580), (16, 1156), (16, 1400), (16, 2044)] {
         for uui in [1u8, 2] {
             for ufep0_after in [false] {
                 let _ = ufep0_after;
